@@ -6,6 +6,7 @@ use std::io::{BufRead, BufWriter, Write};
 
 mod c02;
 mod c13;
+mod world;
 pub mod util;
 
 fn main() {
@@ -19,6 +20,7 @@ fn main() {
     let f: fn(&mut util::Toks) -> Vec<i128> = match args[1].as_str() {
         "c02" => c02::run_case,
         "c13" => c13::run_case,
+        "world" => world::run_case,
         p => {
             eprintln!("unknown property {}", p);
             std::process::exit(2);
